@@ -45,6 +45,7 @@ DOMAIN = {
     "treeprior": ["none", "constant", "exponential", "skyride"] + GRID_COALS + ["bd-constant", "bdsk"],
     "gridopts": ["none", "both", "gridonly"],
     "brlenspr": ["exponential", "gammadir"],
+    "clockpr": ["ctmcscale", "exponential", "exponential(500)"],
     "init": ["none", "rate_init", "rate_fixed", "root_height_init", "brlens_init", "coalescent_init", "heights_tree"],
     "freq": ["default", "explicit"],
     "tipopts": ["partials", "tip_states", "ambiguities"],
@@ -78,6 +79,8 @@ def excl_pairs():
     e |= pairs("clock", ["strict", "ucln", "horseshoe"], "brlenspr", ["gammadir"])
     e |= pairs("clock", ["strict", "ucln", "horseshoe"], "init", ["brlens_init"])
     e |= pairs("clock", ["ucln", "horseshoe"], "init", ["rate_fixed"])
+    e |= pairs("clockpr", ["exponential", "exponential(500)"], "clock", ["none", "ucln", "horseshoe"])       # the option only applies to the strict clock
+    e |= pairs("clockpr", ["exponential", "exponential(500)"], "init", ["rate_fixed"])
     e |= pairs("gridopts", ["both", "gridonly"], "treeprior", ["none", "constant", "exponential", "bd-constant"])
     e |= pairs("gridopts", ["none", "gridonly"], "treeprior", ["bdsk"])
     e |= pairs("coalopt", ["gmrf_integrated", "non_centered", "no_time_aware", "no_rescaling"], "treeprior", [t for t in D["treeprior"] if t not in PIECEWISE])
@@ -134,6 +137,8 @@ def to_opts(t: dict) -> dict:
         o["cutoff"] = 5
     if not dated and t["brlenspr"] == "gammadir":
         o["brlenspr"] = "gammadir"
+    if dated and t.get("clockpr", "ctmcscale") != "ctmcscale":
+        o["clockpr"] = t["clockpr"]
     init = t["init"]
     if init == "rate_init":
         o["rate_init"] = 0.0123
@@ -611,6 +616,28 @@ def run(ctx: Ctx):
         if "Structure" in v:
             ctx.add("structural_flags")
             ctx.note(f"MODEL-DRIFT bind:structure CliConfig.tla flags the document of {sig(t, ['cmd', 'model', 'clock', 'treeprior'])}; torchtree loads it")
+    # the same model under the four sub-commands: the set of parameters handed to the sampler / optimiser must be the same (a parameter that
+    # one builder silently leaves fixed is not the model the options name)
+    base = {o: DOMAIN[o][0] for o in DOMAIN}
+    models = [dict(data="codon", model="SRD06", clock="strict", treeprior="constant"), dict(data="nuc", model="HKY", categories="4", invariant="yes", clock="none"),
+              dict(data="nuc", model="GTR", clock="ucln", treeprior="skyride"), dict(data="nuc", model="JC69", clock="strict", heights="shift", treeprior="skygrid", gridopts="both"),
+              dict(data="nuc", model="HKY", clock="strict", treeprior="bdsk", gridopts="both")]
+    if not quick:
+        models += [dict(data="codon", model="SRD06", clock="none"), dict(data="aa", model="LG", categories="4", clock="strict", treeprior="exponential"),
+                   dict(data="nuc", model="K80", clock="strict", treeprior="piecewise-linear", gridopts="both", coalopt="non_centered")]
+    for mcfg in models:
+        raws = {}
+        for cmd in DOMAIN["cmd"]:
+            t = dict(base, **mcfg, cmd=cmd)
+            r = one((0, t))
+            if r.get("stage") == "ok":
+                raws[cmd] = sorted(x for x in r["info"].get("raw", []) if x)
+        ctx.add("cross_command_models")
+        ref_cmd = next((c for c in ("hmc", "mcmc", "map", "advi") if c in raws), None)
+        for cmd, ids in raws.items():
+            if ids != raws[ref_cmd]:
+                ctx.violation(f"C19:estimated-parameters-differ:{cmd}:{mcfg['model']}", f"model {mcfg}: torchtree-cli {cmd} estimates {ids}, {ref_cmd} estimates {raws[ref_cmd]} "
+                              f"(only in {cmd}: {sorted(set(ids) - set(raws[ref_cmd]))}; missing in {cmd}: {sorted(set(raws[ref_cmd]) - set(ids))})", {"model": mcfg, "raws": raws})
     ctx.cov["suite"] = {"tests": len(tests), "excluded_pairs": len(excl), "refused_pairs": len(rej), "infeasible_pairs": len(infeasible), "core": not quick}
     ctx.cov["rule"] = ("one evaluation = one option combination run through the real CLI and torchtree loader; the suite is pairwise complete over "
                        "the 21 abstract options (checked by TLC), thorough adds the full product of sub-command x model x clock x heights x tree prior")
